@@ -23,12 +23,12 @@ class DummyQueue:
     delayed: dict[datetime, list[Message]] = field(default_factory=dict)
     dead: list[Message] = field(default_factory=list)
     processing: set[Message] = field(default_factory=set)
-    # where a message in `processing` was taken from: id -> (category, key in `delayed`)
-    taken_from: dict[str, tuple[str, datetime | None]] = field(default_factory=dict)
+    # where a message in `processing` was taken from: id -> (category, key in `delayed`, consumer)
+    taken_from: dict[str, tuple[str, datetime | None, object]] = field(default_factory=dict)
 
     def put_back(self, msg: Message) -> None:
         """Return the message to the category it was taken from."""
-        category, delayed_until = self.taken_from.pop(msg.key.id_, ("NORMAL", None))
+        category, delayed_until, _ = self.taken_from.pop(msg.key.id_, ("NORMAL", None, None))
         if category == "DEAD":
             self.dead.insert(0, msg)
         elif category == "DELAYED" and delayed_until is not None:
